@@ -1294,8 +1294,8 @@ func ruleR208(c *Ctx) {
 				return true
 			case *ast.Ident:
 				obj := info.ObjectOf(t)
+				isParam := false
 				if v, isVar := obj.(*types.Var); isVar && !v.IsField() {
-					isParam := false
 					for _, p := range fd.Type.Params.List {
 						for _, n := range p.Names {
 							if info.ObjectOf(n) == obj {
@@ -1307,6 +1307,16 @@ func ruleR208(c *Ctx) {
 						c.OK(key, ret.Pos(), "returns its parameter, converted")
 						return true
 					}
+					isParam = false
+				}
+				for node, io := range info.Implicits {
+					if _, isCC := node.(*ast.CaseClause); isCC && io == obj {
+						isParam = true
+					}
+				}
+				if isParam {
+					c.OK(key, ret.Pos(), "returns the value itself (type switch binding), converted")
+					return true
 				}
 				rhs, idx, ok := singleDef(fd, obj)
 				if !ok {
